@@ -85,7 +85,10 @@ InitEvent2 ==
 \* ---- raw family: inputs that are not events ------------------------------------------------
 DocOnly == {"empty_doc", "space", "truncated", "minus", "minus_in", "lone_escape", "unicode_trunc", "unicode_trunc_in",
             "surrogate_trunc", "surrogate_pair_trunc", "surrogate_lone", "surrogate_then_char", "dupkeys", "bom",
-            "trailing", "ctrl_in_string", "key_128", "wellformed"}
+            "trailing", "ctrl_in_string", "key_128", "wellformed",
+            \* valid but unusual spellings of strings: every ASCII code point as \uXXXX (in a value / in a key),
+            \* upper-case hex and two-character escapes, UTF-8 length boundaries and surrogate pairs
+            "escapes_ascii", "escapes_ascii_key", "escapes_upper", "escapes_wide"}
 DocClasses == (Values \ {"missing"}) \cup DocOnly
 SigClasses == {"valid", "missing", "wrong_server", "wrong_key", "short", "long", "empty", "bad_b64", "sig_number",
                "server_null", "server_string", "tampered", "null", "string", "array", "number", "garbage"}
